@@ -71,7 +71,11 @@ streampos FileTools::getFileSize(const std::string& filename)
 std::string FileTools::getParent(const std::string& path, char dirSep)
 {
   // Position of file name:
-  ptrdiff_t begin = static_cast<ptrdiff_t>(path.find_last_of(dirSep));
+  string::size_type sepPos = path.find_last_of(dirSep);
+  // No directory separator: no parent directory.
+  if (sepPos == string::npos)
+    return "";
+  ptrdiff_t begin = static_cast<ptrdiff_t>(sepPos);
 
   // Copy string and delte filename:
   string result(path);
